@@ -14,7 +14,7 @@ import props
 
 EVID = os.environ.get("VERIF_EVID_DIR") or os.path.join(VERIF, "evidence")
 REPLAYS = os.path.join(os.path.dirname(os.environ["VERIF_EVID_DIR"]), "replays") if os.environ.get("VERIF_EVID_DIR") else os.path.join(VERIF, "replays")
-KNOWN = os.path.join(VERIF, "known_findings.txt")
+KNOWN = os.environ.get("VERIF_KNOWN") or os.path.join(VERIF, "known_findings.txt")
 
 
 def load_known():
